@@ -46,11 +46,16 @@ def doc_cases(ctx, bases):
         xs = F.extref_sites(root, rng, None if (small or not quick) else 1)
         if quick and not small:
             xs = [f for f in xs if not f.get('empty')] + [f for f in xs if f.get('empty')][:10]
+            if name == 'full':
+                xs = rng.sample(xs, min(40, len(xs)))
         for f in xs:
             cases.append({'base': name, 'faults': [f]})
             stats['extref'] = stats.get('extref', 0) + 1
         # references re-pointed at a name defined only in another scope: all of them, always
-        for f in F.crossref_sites(root):
+        cr = F.crossref_sites(root)
+        if quick and name == 'full' and len(cr) > 30:
+            cr = rng.sample(cr, 30)          # the base `scopes` carries every scoped kind; all of its sites run
+        for f in cr:
             cases.append({'base': name, 'faults': [f]})
             stats['crossref'] = stats.get('crossref', 0) + 1
         if small:
@@ -68,13 +73,13 @@ def doc_cases(ctx, bases):
                     fs = by[lab]
                     pick.extend(rng.sample(fs, min(2, len(fs))))
                 rest = [f for f in ss if f not in pick]
-                pick.extend(rng.sample(rest, min(150 if name == 'full' else 40, len(rest))))
+                pick.extend(rng.sample(rest, min(70 if name == 'full' else 30, len(rest))))
             else:
                 pick = ss
             for f in pick:
                 cases.append({'base': name, 'faults': [f]})
             stats['single_sampled' if quick else 'single_exhaustive'] += len(pick)
-    npairs = 160 if quick else 3000
+    npairs = 100 if quick else 3000
     names = sorted(bases)
     for _ in range(npairs):
         name = rng.choice(names)
@@ -189,8 +194,23 @@ class Interner(object):
         return self.d[s]
 
 
-def c_doc_case(res):
-    I = Interner()
+GLOBAL_I = Interner()          # ids of all cases of a run share one table, so that the undamaged
+BASE_SNAPS = {}                 # snapshots can be defined once in the header of every case file
+
+
+def header_with_bases(results, cases):
+    defs = []
+    for c, r in zip(cases, results):
+        b = c.get('base')
+        if b and b not in BASE_SNAPS and r.get('base_snapshot'):
+            BASE_SNAPS[b] = r['base_snapshot']
+            defs.append('Definition base_snap_%s : list C08.snap := %s.' % (
+                b, clist([ctuple(cnat(x[0]), cN(GLOBAL_I(x[1])), cN(x[2])) for x in r['base_snapshot']])))
+    return HEADER + '\n'.join(defs) + '\n'
+
+
+def c_doc_case(res, base=None):
+    I = GLOBAL_I
     ev = clist(['(EvOk %s %s)' % (cnat(e[1]), cN(e[2])) if e[0] == 'ok' else '(EvErr %s)' % cnat(e[1])
                 for e in res['events']])
     runs = clist([ctuple(c_mask(r['mask']), cnat(r['esc']), clist([cnat(x) for x in r['errs']]), c_pairs(r['loaded']))
@@ -199,7 +219,10 @@ def c_doc_case(res):
     if not wf:
         return '(CaseNotXml %s)' % runs
     if wf:
-        base = clist([ctuple(cnat(s[0]), cN(I(s[1])), cN(s[2])) for s in res['base_snapshot']])
+        if base in BASE_SNAPS and BASE_SNAPS[base] == res['base_snapshot']:
+            base = 'base_snap_%s' % base
+        else:
+            base = clist([ctuple(cnat(s[0]), cN(I(s[1])), cN(s[2])) for s in res['base_snapshot']])
         fault = clist([ctuple(cnat(s[0]), cN(I(s[1])), cN(s[2])) for s in res['fault_snapshot']])
         aff = c_pairs([(a[0], I(a[1])) for a in res['affected']])
         loaded = c_pairs(res['loaded_full'])
@@ -361,13 +384,14 @@ def run(ctx):
                              'input': {'base': name, 'faults': []}})
     failures += failures_of(dcases, dres)
     failures += failures_of(mcases, mres)
-    scases = site_cases(bases, dcases, dres, 450 if ctx.quick() else 100000)
+    scases = site_cases(bases, dcases, dres, 350 if ctx.quick() else 100000)
     sres = run_sites(scases)
     failures += failures_of(scases, sres)
-    terms = [c_doc_case(r) for r in dres] + [c_mask_case(c, r) for c, r in zip(mcases, mres)] \
+    header = header_with_bases(dres, dcases)
+    terms = [c_doc_case(r, c.get('base')) for c, r in zip(dcases, dres)] + [c_mask_case(c, r) for c, r in zip(mcases, mres)] \
         + [c_site_case(c, r) for c, r in zip(scases, sres)]
     ctx.log('evaluating the model on the same cases inside Coq')
-    bad, errors = core.coq_eval_cases(ctx, HEADER, CASE_TYPE, terms, 'C08.mismatches', chunk=150)
+    bad, errors = core.coq_eval_cases(ctx, header, CASE_TYPE, terms, 'C08.mismatches', chunk=200)
     known = {k['signature'] for k in core.load_known() if k.get('property') == 'C08'}
     mismatches = []
     allcases = dcases + mcases + [{'site': {k: v for k, v in c.items() if k != 'base_xml'}} for c in scases]
